@@ -588,6 +588,70 @@ def check_reentrant_new(ctx: Check, tree: Tree) -> None:
         ctx.info("R-REENTRANT", "src/ampform/sympy/_array_expressions.py", "no __new__ converts an argument kind into a stored SymPy container")
 
 
+def _is_none_token(e: ast.AST) -> bool:
+    text = unparse(e)
+    return text.split(".")[-1] == "none" or text.replace("sp.", "").replace("sympy.", "").startswith("NoneToken(")
+
+
+def _none_test(test: ast.AST) -> tuple[str, bool] | None:
+    """(`p`, True) for `p is None`, (`p`, False) for `p is not None`."""
+    if isinstance(test, ast.Compare) and len(test.ops) == 1 and isinstance(test.comparators[0], ast.Constant) and test.comparators[0].value is None and isinstance(test.left, ast.Name):
+        if isinstance(test.ops[0], ast.Is):
+            return test.left.id, True
+        if isinstance(test.ops[0], ast.IsNot):
+            return test.left.id, False
+    return None
+
+
+def check_reentrant_none_token(ctx: Check, tree: Tree) -> None:
+    """R-REENTRANT (None token): where __new__ of a hand-written expression class stores SymPy's `none` token in place
+    of a `None` argument, the stored token comes back as that argument when the instance is rebuilt from its args
+    (func(*args), pickle, xreplace, subs).  A guard of the same __new__ that raises for a value that is not None and
+    not of the accepted kinds must then accept the token too."""
+    hw = handwritten_expr_classes(tree)
+    n = 0
+    for q, cls in sorted(hw.items()):
+        new = cls.methods.get("__new__")
+        if new is None:
+            continue
+        converted: dict[str, ast.AST] = {}
+        for node in walk_function(new.node, nested=False):
+            if isinstance(node, ast.IfExp):
+                nt = _none_test(node.test)
+                if nt is not None:
+                    token = node.body if nt[1] else node.orelse
+                    if _is_none_token(token):
+                        converted.setdefault(nt[0], node)
+            elif isinstance(node, ast.If):
+                nt = _none_test(node.test)
+                if nt is not None:
+                    branch = node.body if nt[1] else node.orelse
+                    for st in branch:
+                        if isinstance(st, ast.Assign) and _is_none_token(st.value):
+                            converted.setdefault(nt[0], st)
+        for param, site in converted.items():
+            n += 1
+            rejecting = None
+            for node in walk_function(new.node, nested=False):
+                if not isinstance(node, ast.If) or not any(isinstance(x, ast.Raise) for st in node.body for x in ast.walk(st)):
+                    continue
+                text = unparse(node.test)
+                # `p is not None and not isinstance(p, K)`: raises for everything that is neither None nor of kind K
+                kinds = [k for subj, k in _isinstance_tests(node.test) if subj == param]
+                if not kinds or f"not isinstance({param}" not in text:
+                    continue
+                names = set().union(*kinds)
+                if any("NoneToken" in k for k in names) or "none" in {x.id for x in ast.walk(node.test) if isinstance(x, ast.Name)} or ".none" in text:
+                    continue
+                rejecting = node
+                break
+            ctx.verdict(rejecting is None, "R-REENTRANT", f"{q}.__new__::none-token::{param}", tree.loc(site),
+                        f"{cls.name}.__new__: `{param}=None` is stored as SymPy's `none` token; the guards of the same __new__ accept that token when the instance is rebuilt from its args",
+                        None if rejecting is None else f"`if {unparse(rejecting.test)[:90]}: raise ...` rejects the stored token: func(*args), pickle.loads, xreplace and subs of such an instance raise")
+    if n == 0:
+        ctx.info("R-REENTRANT", "src/ampform/sympy/_array_expressions.py", "no __new__ stores the `none` token in place of a None argument (ArraySlice normalises its slice inside a helper that accepts the token)")
+
+
 # ---------------------------------------------------------------------------- deprecated base class
 def check_deprecated_getnewargs(ctx: Check, tree: Tree) -> None:
     """R-NEWARGS (deprecated UnevaluatedExpression): ``__getnewargs_ex__`` returns ``(tuple(self.args), {"name": self._name})`` -
@@ -663,6 +727,7 @@ def run(ctx: Check, tree: Tree) -> None:
     ctx.section(check_toplevel_classes, ctx, tree)
     ctx.section(check_canonical_nodes, ctx, tree)
     ctx.section(check_reentrant_new, ctx, tree)
+    ctx.section(check_reentrant_none_token, ctx, tree)
     ctx.section(check_handwritten_newargs, ctx, tree)
     ctx.section(check_deprecated_getnewargs, ctx, tree)
     ctx.section(check_model_pickle_hooks, ctx, tree)
